@@ -73,7 +73,7 @@ CLAIMS = {
         note="Top-level/nested JSON null, duplicate keys' winner, non-integer number spellings are unclaimed. Validation (C11) is out of scope here.",
         technique=ENUM_TECH, design="DESIGN.md §4 C10"),
     "C11": dict(engine="seqx", category="exploration",
-        text="Generated well-formed client messages of every type with every optional part present/absent and insignificant whitespace at every structural position must pass the relay's admission composition (utf8/json valid, ParseClientMsg, ValidClientMsg); every single-point corruption that is admitted must decode to a value satisfying all NIP-01 constraints, checked on the value. Exhaustive over the generator's product.",
+        text="Generated well-formed client messages of every type with every optional part present/absent and insignificant whitespace at every structural position must pass the relay's admission composition (utf8/json valid, ParseClientMsg, ValidClientMsg); every single-point corruption that is admitted must decode to a value satisfying all NIP-01 constraints, checked on the value. Exhaustive over the generator's product. Behind the gate (E3): 5 well-formed and 20 constraint-breaking messages that still parse are sent through the real relay; the handler must receive exactly the well-formed ones.",
         note="Trusted: the independent well-formedness predicate in checks/c11/wf.go. Unclaimed: JSON null for objects, exponent spellings, since>until, subscription-id length, U+000C.",
         technique=ENUM_TECH, design="DESIGN.md §4 C11"),
     "C17": dict(engine="vsched", category="model_checking",
@@ -90,7 +90,7 @@ CLAIMS = {
         technique=E1_TECH, design="DESIGN.md §4 C19"),
     "C20": dict(engine="seqx", category="exploration",
         text="Product of Upgrade/Accept/method/path/mux configurations through ServeMux.ServeHTTP on a ResponseRecorder (relay path recognised by equality with Relay.ServeHTTP's own answer), and NIP-11 documents (2^16 present/absent product plus targeted structured values; kind ranges as numbers and pairs) through Marshal/Unmarshal and the HTTP handlers.",
-        note="Accept values that merely contain the media type or differ in case are unclaimed; headers are claimed only when a document is configured.",
+        note="For Accept values that merely contain the media type or differ in case it is unclaimed which of the two answers is due, but the response must be one of them in full; headers are claimed only when a document is configured.",
         technique=ENUM_TECH, design="DESIGN.md §4 C20"),
     "C02": dict(engine="seqx", category="exploration",
         text="Small-scope exhaustive enumeration: every (filter, event) pair and every filter list up to length 3 over a colliding alphabet, and every event sequence up to length 5 for the limit-counting matcher, each compared with a reference predicate written from the property text. Exhaustive over the stated alphabet, silent beyond it.",
